@@ -21,13 +21,15 @@ for l in log:
     out.append("| %d | `%s` | %s | %s |" % (n, h, ", ".join(props) if props else "(found while triaging; covered by the checks of the file's properties)", subj[5:].replace("|", "\\|")))
 out += ["", "Open known findings: %d." % len([f for f in kf if f.get("status") == "open"]), ""]
 metas = sorted(glob.glob(os.path.join(V, "seeded", "*", "meta.json")))
+sp = os.path.join(V, "seeded", "strengthened.json")
+STR = json.load(open(sp)) if os.path.exists(sp) else {}
 out += ["### D.2 Seeded changes (independent sub-agents) and the checks that catch them", "",
-        "| seed | breaks | valid seed (builds, suite passes, demo fails with / passes without) | quick checks reporting a VIOLATION | first signatures |", "|---|---|---|---|---|"]
+        "| seed | breaks | valid seed (builds, suite passes, demo fails with / passes without) | quick checks reporting a VIOLATION | first signatures | caught at first evaluation? |", "|---|---|---|---|---|---|"]
 for m in metas:
     d = json.load(open(m))
     sig = "; ".join((d.get("checks", {}).get(d["property"], {}).get("signatures") or [])[:2]).replace("|", "\\|")
-    out.append("| %s | %s | %s | %s | %s |" % (d["name"], d["property"], "yes" if d.get("confirmed_valid_seed") else "NO (%s)" % d.get("invalid_reason", "see meta.json"),
-                                             ", ".join(d.get("detected_by", [])) or "**none**", sig[:160]))
+    out.append("| %s | %s | %s | %s | %s | %s |" % (d["name"], d["property"], "yes" if d.get("confirmed_valid_seed") else "NO (%s)" % d.get("invalid_reason", "see meta.json"),
+                                             ", ".join(d.get("detected_by", [])) or "**none**", sig[:160], ("no - added: " + STR[d["name"]]) if d["name"] in STR else "yes"))
 out += ["", "<!-- AUTOGEN-END -->"]
 p = os.path.join(V, "DESIGN.md")
 s = open(p).read()
